@@ -7,7 +7,7 @@ from contextlib import suppress
 import claripy
 from claripy import backends
 from claripy.ast import Base
-from claripy.errors import BackendError, ClaripyFrontendError
+from claripy.errors import BackendError, ClaripyFrontendError, ClaripyZeroDivisionError
 
 from .constrained_frontend import ConstrainedFrontend
 
@@ -110,7 +110,12 @@ class ReplacementFrontend(ConstrainedFrontend):
             return self._replacement_cache[old.hash()]
 
         # not found in the cache
-        new = claripy.replace_dict(old, self._replacement_cache)
+        try:
+            new = claripy.replace_dict(old, self._replacement_cache)
+        except ClaripyZeroDivisionError:
+            # a divisor became the constant 0 and the rebuilt node cannot be folded (the solver defines the quotient,
+            # the concrete backend refuses it): the expression is used as it is
+            return old
         if new is not old:
             self._replacement_cache[old.hash()] = new
         return new
@@ -228,7 +233,9 @@ class ReplacementFrontend(ConstrainedFrontend):
             return c
 
         cr = self._replacement(e)
-        with suppress(BackendError):
+        # (a division by a divisor that the replacements turned into zero is defined for the solver - all ones, the
+        # dividend - while the concrete backend refuses it: leave it to the solver)
+        with suppress(BackendError, ClaripyZeroDivisionError):
             return backends.concrete.eval(cr, 1)[0]
         return None
 
